@@ -229,3 +229,31 @@ def forced_purge_not_skipped(ctx, R, prog):
                           % (work, f.text(fs[0][0])), key=R + ":forced:%s" % name, witness=w)
         if n == 0:
             raise AnalysisBroken("forced purge rule: no expiry-decided skip edge in %s" % name)
+
+
+def cursor_pairing(ctx, R, prog):
+    """C09.R9 / C12.R6: a segment taken from the abandoned set by the cursor (non-NULL result of _mi_arena_segment_clear_abandoned_next) is, on every path,
+    re-marked abandoned or reclaimed before the next one is taken or the function leaves — otherwise it is in no set at all and is lost to every later walk/reclaim."""
+    n = 0
+    for cname in rl.callers_of(prog, "_mi_arena_segment_clear_abandoned_next"):
+        f = prog.fn(cname)
+        cfg = f.cfg
+        for c in f.calls("_mi_arena_segment_clear_abandoned_next"):
+            n += 1
+            u = rl.result_use(f, c)
+            d = None
+            if isinstance(u, tuple):
+                d = u[1] if u[0] == "init" else rl.var_of(f, u[1])
+            if d is None:
+                ctx.fail(R, f.where(c), "result of the cursor is not bound to a variable", key=R + ":pair:%s:bind" % cname)
+                continue
+            def nn(e, pol):
+                return isinstance(e, int) and rl.fact_nonnull(f, e, pol, lambda j: (f.nodes[j]["k"] == "DeclRefExpr" and f.nodes[j]["d"] == d) or
+                                                              (f.nodes[j]["k"] == "BinaryOperator" and f.nodes[j]["op"] == "=" and f.is_ref(f.nodes[j]["c"][0], d)))
+            starts = [q for p, q, e, pol in rl.edges_with_fact(f, nn) if cfg.reaches(cfg.after(c), p)]
+            others = [cfg.pt(x) for x in f.calls("_mi_arena_segment_clear_abandoned_next")]
+            done = lambda e: rl.is_call(f, e, ("_mi_arena_segment_mark_abandoned", "mi_segment_reclaim")) and rl.var_of(f, f.nodes[e]["args"][0]) == d
+            w = cfg.must_pass(starts, cfg.exit_points() + others, done) if starts else ["no non-NULL edge"]
+            ctx.check(R, w is None, f.where(c), "every segment taken by the cursor is re-marked or reclaimed before the next fetch / the return", key=R + ":pair:%s" % cname, witness=w)
+    if n < 4:
+        raise AnalysisBroken("cursor pairing: %d cursor fetch sites, 4 confirmed" % n)
